@@ -7,6 +7,7 @@ CONSTANTS
   MaxMut = 2
   MaxFault = 3
   MaxEnv = 9
+  MaxHold = 1
 INIT Init
 NEXT Next
 INVARIANTS PropertyHolds Converged CacheIsView
